@@ -669,6 +669,18 @@ def compare_scenes(a, b, map_ab, points, delta_a, delta_b, tol=0.08, slope_tol=0
             skipped += 1
             continue
         cb = b.color_at(q)
+        if max(abs(x - y) for x, y in zip(ca, cb)) > tol:
+            # geometry (edges, gradient bands) may legitimately sit up to delta away: a feature thinner than the probe spacing
+            # above is not seen by the stability test, so before calling it a mismatch look for the expected colour within
+            # delta in b, or the actual colour within delta in a
+            near = [(i * delta_b / 3.0, j * delta_b / 3.0) for i in range(-3, 4) for j in range(-3, 4) if (i, j) != (0, 0)]
+            if any(max(abs(x - y) for x, y in zip(ca, b.color_at((q[0] + dx, q[1] + dy)))) <= tol for dx, dy in near):
+                skipped += 1
+                continue
+            near_a = [(i * delta_a / 3.0, j * delta_a / 3.0) for i in range(-3, 4) for j in range(-3, 4) if (i, j) != (0, 0)]
+            if any(max(abs(x - y) for x, y in zip(cb, a.color_at((p[0] + dx, p[1] + dy)))) <= tol for dx, dy in near_a):
+                skipped += 1
+                continue
         compared += 1
         if max(abs(x - y) for x, y in zip(ca, cb)) > tol:
             bad.append({"point": [p[0], p[1]], "mapped": [q[0], q[1]], "expected_rgba": [round(v, 4) for v in ca], "actual_rgba": [round(v, 4) for v in cb]})
